@@ -18,6 +18,7 @@ from qce_circuit.structure.intrf_circuit_operation import (
     MultiRelationType,
     ChannelIdentifier,
     ICircuitOperation,
+    clear_start_time_cache,
 )
 from qce_circuit.structure.graph_traversal.intrf_graph_structure import (
     IEndpoint,
@@ -249,6 +250,7 @@ class CircuitCompositeOperation(ICircuitCompositeOperation):
     # region Interface Methods
     def add(self, operation: ICircuitOperation) -> ICircuitCompositeOperation:
         """:return: Self. Adds operation to circuit."""
+        clear_start_time_cache()  # Circuit structure changes
         # Data allocation
         self._circuit_graph = CircuitGraphBranch.add_to_graph(
             graph=self._circuit_graph,
@@ -302,8 +304,9 @@ class CircuitCompositeOperation(ICircuitCompositeOperation):
         result: List[ICircuitOperation] = []
         for node in self._circuit_graph.get_node_iterator():
             # Apply relation-link head (Important for nested composite-operations)
-            if not node.operation.has_relation:
+            if not node.operation.has_relation and node.operation.relation_link is not self.relation_link:
                 node.operation.relation_link = self.relation_link
+                clear_start_time_cache()  # Relation link changes
             # Extend decomposed operation list
             result.extend(node.operation.decomposed_operations())
         return result
@@ -320,6 +323,7 @@ class CircuitCompositeOperation(ICircuitCompositeOperation):
                 operation=operation,
             )
         self._circuit_graph = flatten_circuit_graph
+        clear_start_time_cache()  # Circuit structure changes
         return self
     # endregion
 
